@@ -225,6 +225,74 @@ func init() {
 		}
 		return fmt.Sprintf("callsBeforeStart=0 firstCallBeforeOneTick=%d switchedBeforeStartDelay=%d calls=%d", early, fewer, min64(calls.Load(), 1))
 	})
+	// raterun.order <d1> <f1> <d2> <f2> <d3> <f3> <runMs> — three schedules (start delay, frequency; ms; the frequencies differ):
+	// the frequencies the function is handed must appear in the order the list gives them, and schedule k not before the
+	// start delays up to k have run (each delay counts from the start of the schedule before it)
+	register("raterun.order", func(a []string) string {
+		var scheds []raterun.Schedule
+		for i := 0; i < 3; i++ {
+			scheds = append(scheds, raterun.Schedule{StartDelay: ms(a[2*i]), Frequency: ms(a[2*i+1])})
+		}
+		runD := ms(a[6])
+		var mu sync.Mutex
+		type call struct {
+			f  time.Duration
+			at time.Duration
+		}
+		var calls []call
+		t0 := time.Now()
+		r, err := raterun.New(func(f time.Duration) {
+			mu.Lock()
+			calls = append(calls, call{f, time.Since(t0)})
+			mu.Unlock()
+		}, scheds)
+		if err != nil {
+			return "err"
+		}
+		ctx, cancel := context.WithCancel(context.Background())
+		defer cancel()
+		r.Start(ctx)
+		time.Sleep(runD)
+		r.Stop()
+		mu.Lock()
+		defer mu.Unlock()
+		var seq []time.Duration
+		first := map[time.Duration]time.Duration{}
+		for _, c := range calls {
+			if len(seq) == 0 || seq[len(seq)-1] != c.f {
+				seq = append(seq, c.f)
+			}
+			if _, ok := first[c.f]; !ok {
+				first[c.f] = c.at
+			}
+		}
+		// (a schedule that is left before its first tick hands the function nothing: a subsequence, not a prefix)
+		outOfOrder := 0
+		j := 0
+		for _, f := range seq {
+			for j < 3 && scheds[j].Frequency != f {
+				j++
+			}
+			if j == 3 {
+				outOfOrder = 1
+				break
+			}
+			j++
+		}
+		early := 0
+		cum := time.Duration(0)
+		for i := 0; i < 3; i++ {
+			cum += scheds[i].StartDelay
+			if at, ok := first[scheds[i].Frequency]; ok && i > 0 && at < cum-2*time.Millisecond {
+				early = 1
+			}
+		}
+		some := 0
+		if len(calls) > 0 {
+			some = 1
+		}
+		return fmt.Sprintf("outOfOrder=%d switchedBeforeStartDelay=%d someCalls=%d", outOfOrder, early, some)
+	})
 	// raterun.count <freqMs> <runMs> — at most one invocation per tick: calls <= 1 + elapsed/freq
 	register("raterun.count", func(a []string) string {
 		freq, runD := ms(a[0]), ms(a[1])
